@@ -11,6 +11,11 @@ func WriteSubsysEvents(spec string, enc *json.Encoder, t int, sc *Scenario, tr *
 			_ = enc.Encode(e)
 			n++
 		}
+	case "Governance":
+		for _, e := range GovEvents(t, sc, tr) {
+			_ = enc.Encode(e)
+			n++
+		}
 	case "EthTracker":
 		for _, e := range EthEvents(t, sc, tr) {
 			_ = enc.Encode(e)
